@@ -762,3 +762,45 @@ def topn_exhaustive(tier):
         for hs in itertools.permutations(range(1, n + 1)):
             for c in range(0, n + 2):
                 yield f"TOPN count={c} res=100 start=0 B={','.join(str(3 * i) for i in range(n))} H={','.join(map(str, hs))}"
+
+
+def joinrows_ladder_random(rng, count, only_trailing=False):
+    """first-pass rows built from LADDERS of seed peaks (several chained, trimmed segments) joined with
+    the alignments of their own unaligned fragments — the shape the second pass really produces"""
+    import realops
+    import codec
+    made = 0
+    tries = 0
+    while made < count and tries < 40 * count:
+        tries += 1
+        P = rand_params(rng)
+        R = make_reference(rng, rng.randrange(25, 70), rng.choice([3000, 9000]), rng.choice([200, 500, 2000]))
+        Q, off, _ = make_query(rng, R, True)
+        if len(Q) < 10:
+            continue
+        rev = rng.randrange(2)
+        Qs = mirror(Q) if rev else Q
+        al = realops.make_aligner(P, 1, 0)
+        ref = codec.OpticalMap(1, R[-1] + 1000, R)
+        full = codec.OpticalMap(7, Qs[-1] + 1, Qs)
+        try:
+            A = al.align(ref, full, [codec.Peak(p, 1.0) for p in ladder(rng, off)], bool(rev))
+            if not A.alignedPairs:
+                continue
+            if only_trailing:
+                s0 = A.segments[0].positions
+                # the first segment was trimmed by the resolver and now ends on an unpaired label
+                if not s0 or isinstance(s0[-1], realops.AlignedPair):
+                    continue
+            frs = A.getUnalignedFragments([full])
+        except Exception:
+            continue
+        for fr in frs:
+            try:
+                B = al.align(ref, fr, [codec.Peak(off + rng.choice([0, rng.randrange(-300, 300)]), 1.0)], bool(rev)).setAlignedRest(True)
+            except Exception:
+                continue
+            if not B.alignedPairs:
+                continue
+            yield f"JOINROWS {pstr(P)} A={codec.show_row_t(A)} B={codec.show_row_t(B)}"
+            made += 1
